@@ -36,7 +36,7 @@ def gen_config(rng, tier):
     return {'format': rng.choice(FORMATS),
             'exhaustive': tier == 'thorough' and rng.random() < 0.5,
             'sample': rng.choice([40, 80, 160]) if tier == 'quick' else 600,
-            'via': rng.choice(['class', 'pncopen']),
+            'via': rng.choice(['class', 'pncopen', 'record']),
             # the documented writable mode of the header-bearing memmap readers
             'mode': rng.choice(['r', 'r', 'r+']),
             'clock': 'steady', 'max_steps': 100000}
@@ -157,10 +157,19 @@ def build(fmt, spec):
     return b, meta, truth
 
 
+RECORD_FORMATS = ('uamiv', 'temperature', 'wind', 'one3d', 'humidity', 'vertical_diffusivity',
+                  'height_pressure')
+
+
 def open_reader(fmt, path, spec, via, mode='r'):
     import PseudoNetCDF as pnc
     if fmt == 'bpch':
         return pnc.pncopen(path, format='bpch1')
+    if via == 'record' and fmt in RECORD_FORMATS:
+        # the sequential record readers (no time-flag variables)
+        from PseudoNetCDF.camxfiles import Readers
+        cls = getattr(Readers, fmt)
+        return cls(path) if fmt == 'uamiv' else cls(path, spec['ny'], spec['nx'])
     if fmt in ('uamiv', 'lateral_boundary'):
         kw = {} if mode == 'r' else {'mode': mode}
         if via == 'pncopen':
@@ -193,9 +202,14 @@ def present(fmt, path, spec, via, mode='r'):
     keys = list(f.variables.keys())
     tflag = None
     etflag = None
+    first = None
     for k in keys:
-        v = f.variables[k]
-        a = np.array(v[...])
+        try:
+            v = f.variables[k]
+            a = np.array(v[...])
+        except Exception as e:
+            first = (k, e)
+            break
         if k in ('TFLAG', 'ETFLAG'):
             if k == 'TFLAG':
                 tflag = a
@@ -203,7 +217,23 @@ def present(fmt, path, spec, via, mode='r'):
                 etflag = a
             continue
         out[k] = a[None] if fmt == 'landuse' else a     # the whole file is one "step"
-    return {'vars': out, 'tflag': tflag, 'etflag': etflag}
+    if first is not None:
+        # The read raised: an allowed outcome.  A user who catches the error and
+        # asks for the same variable again on the same object must not now be
+        # handed data (a reader that stored a half-built variable before it
+        # noticed the damage answers the second request from that store): what a
+        # retry RETURNS is judged like any other exposure.
+        k, e = first
+        try:
+            a = np.array(f.variables[k][...])
+        except Exception:
+            raise e
+        if k in ('TFLAG', 'ETFLAG'):
+            raise e
+        a = a[None] if fmt == 'landuse' else a
+        return {'vars': {k: a}, 'tflag': None, 'etflag': None, 'raised': [],
+                'retried': [k], 'partial': True}
+    return {'vars': out, 'tflag': tflag, 'etflag': etflag, 'raised': [], 'retried': []}
 
 
 def judge(fmt, pres, truth, full, N, step_ends, boundaries=None):
@@ -262,19 +292,22 @@ def judge(fmt, pres, truth, full, N, step_ends, boundaries=None):
             return ('steps-beyond-file', '%s exposes %d steps, the full file has %d'
                     % (k, n, nt_true))
         for i in range(n):
-            if step_ends[i] > N:
-                return ('steps-beyond-prefix',
-                        '%s exposes step %d which ends at byte %d but the file '
-                        'was cut at %d' % (k, i, step_ends[i], N))
             if a[i].astype('f4').tobytes() != t[i].astype('f4').tobytes():
                 bad = np.nonzero(a[i].astype('f4').ravel() != t[i].astype('f4').ravel())[0]
                 j = int(bad[0]) if bad.size else -1
                 return ('data', '%s step %d differs from the full file (first at '
-                        'flat cell %d: %r instead of %r; %d cells)' % (
+                        'flat cell %d: %r instead of %r; %d cells)%s' % (
                             k, i, j, a[i].ravel()[j].item() if j >= 0 else None,
-                            t[i].ravel()[j].item() if j >= 0 else None, bad.size))
+                            t[i].ravel()[j].item() if j >= 0 else None, bad.size,
+                            '; the step ends at byte %d, beyond the cut' % step_ends[i]
+                            if step_ends[i] > N else ''))
+            if step_ends[i] > N:
+                # (values genuine) an incomplete step is exposed
+                return ('steps-beyond-prefix',
+                        '%s exposes step %d which ends at byte %d but the file '
+                        'was cut at %d' % (k, i, step_ends[i], N))
     for k in truth:
-        if k not in pres['vars'] and pres['vars']:
+        if k not in pres['vars'] and pres['vars'] and not pres.get('partial'):
             return ('missing-variable', 'variable %s of the file is not presented' % k)
     tf = pres['tflag']
     if tf is not None and full is not None and full.get('tflag') is not None:
@@ -578,7 +611,14 @@ def apply(st, op):
                 bad = ('reader-crashed', 'the reading process died (wait status %r)' % (
                     r.get('status'),))
             if bad is not None:
-                sig = {'format': fmt, 'what': bad[0]}
+                ends = f['meta'].get('data_ends', f['meta']['step_ends'])
+                nxt = [e for e in ends if e > N]
+                sig = {'format': fmt, 'what': bad[0],
+                       'reader': 'record' if (st.c['via'] == 'record' and fmt in RECORD_FORMATS)
+                       else 'memmap',
+                       # the cut took (part of) the trailing length marker of the step's
+                       # last record only: every data byte of that step is in the prefix
+                       'only_trailing_marker_missing': bool(nxt) and nxt[0] - N <= 4}
                 kn = w.known_match(dict(sig, invariant='truncated-file-misread'))
                 if kn is not None:
                     kh = st.stats['known_hits'].setdefault(kn, {'n': 0, 'example': None})
